@@ -530,6 +530,20 @@ set_option maxRecDepth 100000 in
 theorem safe_until_passed_fails :
     witnessF.1.safe = true ∧ witnessF.1.clock < witnessF.2 := by decide +kernel
 
+/-! ### The 'never ahead of elapsed host time' clause does NOT hold under fine-grained polling (known finding G) -/
+
+/-- poll the timer every millisecond, `n` times, starting at host time `m0` -/
+def pollN (p : Plat) (m0 n : Nat) : Plat := (List.range n).foldl (fun p i => (p.timerRead (m0 + i + 1)).1) p
+
+/-- After one COARSE_FASTER adjustment (1 % faster), 300 polls one millisecond apart advance TPM time by more than
+    300·30000/25000 = 360 ms, the bound for the FASTEST permitted rate: Clock runs ahead of scaled host time.
+    (Per-step the advance is bounded — `advance_le_scaled` — but `s_realTimePrevious` only moves by the doubly
+    rounded `readjustedTimeDiff`, so the same host millisecond is counted again at the next poll.) -/
+theorem never_ahead_fails :
+    let p0 := ((({} : Plat).timerRead 1000).1.rateAdjust 3)
+    (pollN p0 1000 300).tpmTime - p0.tpmTime > 300 * Gen.CLOCK_NOMINAL / (Gen.CLOCK_NOMINAL - Gen.CLOCK_ADJUST_LIMIT) := by
+  decide +kernel
+
 /-! ### Non-vacuity: the hypotheses used above are met by reachable states -/
 
 example : Inv ({ orderly := 0 } : St) := by simp [Inv, W]
